@@ -1,7 +1,7 @@
 #!/usr/bin/env python3
 """seedretest.py <seed-name> <note> [check ids...] — re-run checks (default: the property's own) against a kept seeded change
 (seeded/<name>/patch.diff) through lib/seedtest.sh after a check was strengthened, and update its meta.json: the first result
-is kept under `first_run`, `note` says what was strengthened."""
+is kept under `first_run`, `note` says what was strengthened (note "-" = only add the results of further checks)."""
 import json, os, re, subprocess, sys
 ROOT = os.path.dirname(os.path.dirname(os.path.abspath(__file__)))
 name, note = sys.argv[1], sys.argv[2]
@@ -20,10 +20,11 @@ for c in checks:
         what = next((l for l in after[:3] if l.startswith(("impl-violates", "model-impl", "proof-obligation", "harness", "axiom", "driver", "facts"))), "")
         results[c] = {"exit": int(m.group(1)), "verdict": "VIOLATION" if "VIOLATION" in line else "OK",
                       "no_failing_input": "no-failing-input-found" in line, "what": what[:500]}
-if "first_run" not in meta:
+if note != "-" and "first_run" not in meta:
     meta["first_run"] = {"checks_run": meta.get("checks_run", {}), "detected": meta.get("detected"),
                          "detected_with_failing_input": meta.get("detected_with_failing_input")}
-meta["strengthened"] = note
+if note != "-":
+    meta["strengthened"] = note
 meta["checks_run"] = results
 meta["detected"] = any(r["verdict"] == "VIOLATION" for r in results.values())
 meta["detected_with_failing_input"] = any(r["verdict"] == "VIOLATION" and not r["no_failing_input"] for r in results.values())
